@@ -661,7 +661,8 @@ fn eq_discriminates(ex: &Ex, vals: &[RVal]) {
 fn colliding_values(full: bool) -> Vec<(RVal, &'static str)> {
     // (value, collides?) — control cases (typed field not populated) do not collide
     let mut v: Vec<(RVal, &'static str)> = Vec::new();
-    let labels = [l_int(8), l_int(-1), l_text("a"), l_int(i64::MIN), l_int(0), l_int(300)];
+    // incl. labels that have a typed field (left empty here): 1, 4, 7 in headers; 2, 5 in keys
+    let labels = [l_int(8), l_int(-1), l_text("a"), l_int(i64::MIN), l_int(0), l_int(300), l_int(4), l_int(1), l_int(7), l_int(2), l_int(5)];
     // (a) two equal extra labels at every pair of positions among 2..4 extras
     for n in 2..=4usize {
         for p1 in 0..n {
